@@ -337,7 +337,13 @@ pub fn generate(_ctx: &mut Ctx, seed: u64, i: usize, mode: &str) -> Case {
     let (mut enabled, mut disabled) = (vec![], vec![]);
     if mode == "flags" {
         let subset: Vec<String> = crate::gen_src::VALIDATORS.iter().filter(|_| rng.chance(1, 3)).map(|s| s.to_string()).collect();
-        if rng.chance(1, 2) { enabled = subset } else { disabled = subset }
+        match rng.below(4) {
+            // `affects` alone (or with one more): its targets live in files that carry no attribute of a selected validator
+            0 => { enabled = vec!["affects".to_string()]; if rng.chance(1, 2) { enabled.push(rng.pick(crate::gen_src::VALIDATORS).to_string()); } }
+            1 => { disabled = vec![rng.pick(&crate::gen_src::VALIDATORS[1..]).to_string()]; }
+            2 => enabled = subset,
+            _ => disabled = subset,
+        }
     }
     Case {
         files,
